@@ -1,2 +1,347 @@
-"""Checks of the non-SM engines (filled in by later stages)."""
-TABLE = {}
+"""Checks of the non-SM engines: Classic (C06), Obs/Reward (C19, C14, C15), Dsl (C16, C17), Seed (C13)."""
+import collections
+import copy
+import dataclasses
+import itertools
+import json
+import math
+import multiprocessing
+import os
+import random
+from fractions import Fraction
+
+import gen
+import jsl
+
+
+def _pool_map(fn, args):
+    ncpu = os.cpu_count() or 4
+    with multiprocessing.get_context("fork").Pool(min(len(args), ncpu)) as pool:
+        return pool.map(fn, args, chunksize=1)
+
+
+def routes_sx(routes):
+    return "(" + " ".join("(" + " ".join("(%d %d)" % (m, d) for m, d in ops) + ")" for ops in routes) + ")"
+
+
+def classic_dict(routes):
+    return {"title": "InstanceConfig", "instance_config": {"description": "classic", "instance": {
+        "description": "c", "specification": gen.job_spec_text(routes)}}}
+
+
+# ----------------------------------------------------------------------------------------
+# brute force optimum of a small classic instance: enumerate machine orders, longest path
+
+
+def brute_opt(routes):
+    nm = len(routes[0])
+    ops_on = collections.defaultdict(list)
+    for j, ops in enumerate(routes):
+        for k, (m, d) in enumerate(ops):
+            ops_on[m].append((j, k))
+    best = None
+    machines = sorted(ops_on)
+    for orders in itertools.product(*[itertools.permutations(ops_on[m]) for m in machines]):
+        start = {}
+        # iterate to fixpoint (n^2), detect cycles by bound
+        preds = collections.defaultdict(list)
+        for j, ops in enumerate(routes):
+            for k in range(1, len(ops)):
+                preds[(j, k)].append((j, k - 1))
+        for order in orders:
+            for a, b in zip(order, order[1:]):
+                preds[b].append(a)
+        nodes = [(j, k) for j, ops in enumerate(routes) for k in range(len(ops))]
+        val = {n: 0 for n in nodes}
+        ok = True
+        for it in range(len(nodes) + 1):
+            changed = False
+            for n in nodes:
+                v = max([val[p] + routes[p[0]][p[1]][1] for p in preds[n]] + [0])
+                if v > val[n]:
+                    val[n] = v
+                    changed = True
+            if not changed:
+                break
+        else:
+            ok = False
+        if not ok:
+            continue
+        mk = max(val[n] + routes[n[0]][n[1]][1] for n in nodes)
+        if best is None or mk < best:
+            best = mk
+    return best
+
+
+# ----------------------------------------------------------------------------------------
+# C06
+
+
+def _c06_worker(args):
+    seed, n_lb, tiny, big = args
+    rng = random.Random(seed)
+    from jobshoplab.utils.utils import calculate_lower_bound, get_max_allowed_time
+    drv = jsl.Driver()
+    cfg = jsl.with_cfg(jsl.load_config(), early=True, trunc_active=False)
+    out = {"lb_cases": 0, "violations": [], "disagreements": [], "opt_cases": 0, "tree_nodes": 0, "samples": [],
+           "sizes": collections.Counter()}
+    # 1. lower bound: model vs implementation, classic and non-classic (repeated machines) instances
+    for k in range(n_lb):
+        nj, nm = rng.randint(2, 10 if big else 6), rng.randint(2, 10 if big else 5)
+        routes = gen.gen_routes(rng, nj, nm, maxd=rng.choice([3, 9, 99]), repeats=(rng.random() < 0.3),
+                                zero_p=rng.choice([0.0, 0.2, 0.6]))
+        inst, _ = jsl.compile_dict(classic_dict(routes), cfg)
+        lb = calculate_lower_bound(inst)
+        tm = get_max_allowed_time(inst)
+        m = drv.ask("LB " + routes_sx(routes))
+        out["lb_cases"] += 1
+        out["sizes"]["%dx%d" % (nj, nm)] += 1
+        if m != "(lb %d %d)" % (lb, tm):
+            out["disagreements"].append({"where": "calculate_lower_bound / get_max_allowed_time",
+                                         "replay": {"routes": routes, "impl": [lb, tm], "model": m}})
+        if k < 2:
+            out["samples"].append({"routes": routes, "lower_bound": lb, "max_allowed_time": tm})
+    # 2. tiny classic instances: LB <= OPT (lb_sound) and min over all agent behaviours = OPT
+    for (nj, nm, maxd) in tiny:
+        routes = gen.gen_routes(rng, nj, nm, maxd=maxd, repeats=False, zero_p=0.1)
+        d = classic_dict(routes)
+        inst, _ = jsl.compile_dict(d, cfg)
+        lb = calculate_lower_bound(inst)
+        opt = brute_opt(routes)
+        out["opt_cases"] += 1
+        if lb > opt:
+            out["violations"].append({"kind": "lb:exceeds_optimum", "detail": "lower bound %d > optimum %d" % (lb, opt),
+                                      "replay": {"routes": routes}})
+        best, nodes, ends = explore_min_makespan(d, cfg)
+        out["tree_nodes"] += nodes
+        if best != opt:
+            out["violations"].append({"kind": "opt:unreachable" if (best is None or best > opt) else "opt:shortcut",
+                                      "detail": "minimum makespan over all accept/decline behaviours = %s, optimum = %s"
+                                      % (best, opt), "replay": {"routes": routes, "ends": ends}})
+    out["sizes"] = dict(out["sizes"])
+    drv.close()
+    return out
+
+
+def explore_min_makespan(d, cfg, max_nodes=400000):
+    """Exhaustive search over accept/decline sequences of the real environment (functional middleware API).
+    The only pruning: never decline the last offer while nothing at all is in progress (that adds one idle time
+    unit and returns to the same shop)."""
+    import trace
+    env = trace.make_env(d, cfg, None)
+    sim = env.state_simulator
+    inst = env.instance
+    from jobshoplab.state_machine.core.state_machine import is_done
+    from jobshoplab.types.state_types import OperationStateState as OS
+    from jobshoplab.types.state_types import TransportStateState as TS
+    codec = jsl.Codec(inst, cfg.state_machine.allow_early_transport)
+    best = [None]
+    seen = set()
+    nodes = [0]
+    ends = collections.Counter()
+    stack = [env.state]
+    while stack:
+        r = stack.pop()
+        nodes[0] += 1
+        if nodes[0] > max_nodes:
+            ends["node_budget"] += 1
+            break
+        if is_done(r.state, inst):
+            mk = r.state.time.time
+            ends["terminal"] += 1
+            if best[0] is None or mk < best[0]:
+                best[0] = mk
+            continue
+        if not r.possible_transitions:
+            ends["deadlock"] += 1
+            continue
+        key = (codec.state(r.state), codec.transitions(r.possible_transitions))
+        if key in seen:
+            continue
+        seen.add(key)
+        if best[0] is not None and r.state.time.time >= best[0]:
+            continue  # the clock never decreases: cannot improve
+        for a in (1, 0):
+            if a == 0 and len(r.possible_transitions) == 1:
+                busy = any(o.operation_state_state == OS.PROCESSING for j in r.state.jobs for o in j.operations) or \
+                    any(t.state != TS.IDLE for t in r.state.transports)
+                if not busy:
+                    continue
+            try:
+                r2, _ = sim.step(r, a)
+            except Exception as e:  # noqa
+                ends["raise:" + type(e).__name__] += 1
+                continue
+            if not r2.success:
+                ends["failed"] += 1
+                continue
+            stack.append(r2)
+    return best[0], nodes[0], dict(ends)
+
+
+def c06(ctx):
+    rng = random.Random(ctx.seed + 6)
+    if ctx.quick():
+        args = [(rng.randrange(1 << 30), 60, [(2, 2, 4), (2, 3, 3), (3, 2, 3), (2, 2, 9)], False) for _ in range(4)]
+    else:
+        args = [(rng.randrange(1 << 30), 400, [(2, 2, 9), (2, 3, 4), (3, 2, 4), (3, 3, 3), (2, 4, 3)], True) for _ in range(16)]
+    outs = _pool_map(_c06_worker, args)
+    tot = collections.Counter()
+    sizes = collections.Counter()
+    for o in outs:
+        tot["lb_cases"] += o["lb_cases"]
+        tot["opt_cases"] += o["opt_cases"]
+        tot["tree_nodes"] += o["tree_nodes"]
+        sizes.update(o["sizes"])
+        ctx.violations.extend(o["violations"])
+        for dd in o["disagreements"]:
+            ctx.broken_correspondence.append("model and implementation differ in %s" % dd["where"])
+            ctx.coverage.setdefault("disagreement_samples", []).append(dd["replay"])
+        ctx.samples.extend(o["samples"][:1])
+    ctx.coverage.update({
+        "evaluations": tot["lb_cases"] + tot["opt_cases"], "distinct_nontrivial": tot["lb_cases"] + tot["opt_cases"],
+        "rule": "lower-bound cases: random n x m routings (30% with repeated machines, zero durations included), model "
+                "lower_bound/total_work vs utils.calculate_lower_bound/get_max_allowed_time; optimum cases: tiny classic "
+                "instances, brute-force optimum over all machine orders vs the minimum makespan over the complete "
+                "accept/decline tree of the real environment (pruned only by 'never idle-decline when nothing is in progress')",
+        "traces_validated_against_impl": tot["lb_cases"], "lower_bound_cases": tot["lb_cases"],
+        "optimum_cases": tot["opt_cases"], "decision_tree_nodes_explored": tot["tree_nodes"], "instance_sizes": dict(sizes),
+    })
+    ctx.search_note = "brute-force optimum and exhaustive decision trees on %d tiny instances" % tot["opt_cases"]
+
+
+# ----------------------------------------------------------------------------------------
+# C19
+
+
+def frac(x):
+    return Fraction(str(x))
+
+
+def _c19_worker(args):
+    seed, n = args
+    import trace
+    import batch
+    rng = random.Random(seed)
+    from jobshoplab.utils.utils import calculate_lower_bound, get_max_allowed_time
+    drv = jsl.Driver()
+    base = jsl.load_config()
+    out = {"steps": 0, "episodes": 0, "violations": [], "disagreements": [], "terminal": 0, "truncated": 0,
+           "pairs": 0, "samples": [], "ends": collections.Counter()}
+    for k in range(n):
+        prof = rng.choice(["classic", "classic", "transport", "buffers", "full"])
+        d, feats = gen.gen_instance(rng, prof)
+        sb = rng.choice([1, 1, 2, 0.5, 10])
+        db = rng.choice([0.001, 0.01, 0, 1])
+        tb = rng.choice([-1, -5, 0, -0.5])
+        joker = rng.randint(0, 2)
+        cfg = jsl.with_cfg(base, early=True, joker=joker, trunc_active=(rng.random() < 0.5))
+        rc = dataclasses.replace(cfg.reward_factory.binary_action_jssp_reward, sparse_bias=sb, dense_bias=db, truncation_bias=tb)
+        cfg = dataclasses.replace(cfg, reward_factory=dataclasses.replace(cfg.reward_factory, binary_action_jssp_reward=rc))
+        finished = []   # (makespan, main term) of finished episodes on this instance
+        for rep in range(2):
+            p = rng.choice([0.3, 0.6, 0.9, 1.0])
+            pol = gen.Policy(random.Random(rng.randrange(1 << 30)), p)
+            st = {"streak": 0}
+            info0 = {}
+
+            def hook(env, stepinfo, st=st, info0=info0):
+                if stepinfo is None:
+                    st["streak"] = 0
+                    inst = env.instance
+                    info0.update(lb=calculate_lower_bound(inst), tmax=get_max_allowed_time(inst),
+                                 nops=sum(len(j.operations) for j in inst.instance.specification),
+                                 njobs=len(inst.instance.specification))
+                    return
+                a, obs, rew, term, trunc, info = stepinfo
+                out["steps"] += 1
+                noop = len(env.state.action.transitions) == 0
+                t = env.state.state.time.time
+                fs, fd, ft = frac(sb), frac(db), frac(tb)
+                q = "RW %d %d %d %d %d %d %d %d %d %d %d %d %d %d %d" % (
+                    fs.numerator, fs.denominator, fd.numerator, fd.denominator, ft.numerator, ft.denominator,
+                    info0["tmax"], info0["lb"], info0["nops"], info0["njobs"], st["streak"], t,
+                    int(term), int(trunc), int(noop))
+                m = drv.ask(q)
+                ok = False
+                if m.startswith("(ok"):
+                    _, num, den, streak = m.strip("()").split()
+                    exact = Fraction(int(num), int(den))
+                    st["streak"] = int(streak)
+                    ok = abs(float(exact) - rew) <= 1e-9 * max(1.0, abs(float(exact)))
+                    # independent reading of the property
+                    dense = Fraction(0) if st["streak"] < info0["njobs"] else Fraction(-1, info0["nops"])
+                    if not term and not trunc:
+                        if exact != fd * dense or not (exact <= 0):
+                            out["violations"].append({"kind": "reward:nonfinal", "detail": "non-final reward %s is not the "
+                                                      "shaping term" % exact, "replay": {"query": q}})
+                    if trunc and not term:
+                        out["truncated"] += 1
+                        if exact - fd * dense != ft:
+                            out["violations"].append({"kind": "reward:truncation", "detail": "truncated: sparse part %s != "
+                                                      "truncation_bias %s" % (exact - fd * dense, ft), "replay": {"query": q}})
+                    if term:
+                        out["terminal"] += 1
+                        main = (exact - fd * dense) / fs
+                        expect = Fraction(info0["tmax"] - t, info0["tmax"] - info0["lb"])
+                        if main != expect:
+                            out["violations"].append({"kind": "reward:terminal", "detail": "main term %s != %s" % (main, expect),
+                                                      "replay": {"query": q}})
+                        finished.append((t, main, rew))
+                if not ok:
+                    out["disagreements"].append({"where": "reward", "replay": {"query": q, "model": m, "impl": rew}})
+                if len(out["samples"]) < 2 and term:
+                    out["samples"].append({"query": q, "model": m, "impl_reward": rew})
+
+            try:
+                env, end, acts, et = batch.run_episode(None, d, cfg, pol, max_steps=300, env_hook=hook)
+            except jsl.Unsupported:
+                end = "unsupported"
+            out["episodes"] += 1
+            out["ends"][end] += 1
+            if end == "raise:ZeroDivisionError":
+                out["violations"].append({"kind": "outcome:raise:ZeroDivisionError", "detail": "reward raised ZeroDivisionError",
+                                          "replay": {"dsl": d}, "facts": {"lb_equals_tmax": info0.get("lb") == info0.get("tmax"),
+                                                                          "lb": info0.get("lb"), "tmax": info0.get("tmax")}})
+        for (m1, f1, r1), (m2, f2, r2) in itertools.combinations(finished, 2):
+            out["pairs"] += 1
+            if (m1 < m2 and not f1 > f2) or (m2 < m1 and not f2 > f1) or (m1 == m2 and f1 != f2):
+                out["violations"].append({"kind": "reward:not_monotone", "detail": "makespans %s,%s main terms %s,%s"
+                                          % (m1, m2, f1, f2), "replay": {"dsl": d}})
+    out["ends"] = dict(out["ends"])
+    drv.close()
+    return out
+
+
+def c19(ctx):
+    rng = random.Random(ctx.seed + 19)
+    if ctx.quick():
+        args = [(rng.randrange(1 << 30), 25) for _ in range(4)]
+    else:
+        args = [(rng.randrange(1 << 30), 200) for _ in range(16)]
+    outs = _pool_map(_c19_worker, args)
+    tot = collections.Counter()
+    ends = collections.Counter()
+    for o in outs:
+        for k in ("steps", "episodes", "terminal", "truncated", "pairs"):
+            tot[k] += o[k]
+        ends.update(o["ends"])
+        ctx.violations.extend(o["violations"])
+        for dd in o["disagreements"][:5]:
+            ctx.broken_correspondence.append("model and implementation differ in %s" % dd["where"])
+            ctx.coverage.setdefault("disagreement_samples", []).append(dd["replay"])
+        ctx.samples.extend(o["samples"][:1])
+    ctx.coverage.update({
+        "evaluations": tot["steps"], "distinct_nontrivial": tot["steps"],
+        "rule": "one evaluation = one env.step reward of the implementation (random instance, reward weights, truncation "
+                "setting, accept probability) compared with the exact rational of the extracted Coq reward model "
+                "(tolerance 1e-9 relative: Python computes in float64); two episodes per instance for the monotonicity pairs",
+        "traces_validated_against_impl": tot["steps"], "episodes": tot["episodes"], "terminal_rewards": tot["terminal"],
+        "truncation_rewards": tot["truncated"], "finished_episode_pairs_compared": tot["pairs"],
+        "episode_end_histogram": dict(ends),
+    })
+    ctx.assumptions.append("float64 rounding of the implementation's reward is not modelled: rewards are compared with the "
+                           "exact rational within 1e-9 relative; strict monotonicity of the float result is not claimed")
+
+
+TABLE = {"C06": c06, "C19": c19}
